@@ -3,7 +3,7 @@
 Engine E2 (bounded-exhaustive enumeration), oracle: the host x86-64 CPU.
 
   native side : native/x86host.c, compiled with gcc into a per-run temp dir and run as a helper process (one per
-                worker, fed through stdin): loads arithmetic flags + DF, 16 GPRs, 16 XMM and a 256-byte scratch
+                worker, fed through stdin): loads arithmetic flags + DF, 16 GPRs, 16 XMM, 8 MMX registers and a 256-byte scratch
                 window, executes the instruction bytes, stores everything back; SIGFPE/SIGSEGV/SIGILL/SIGTRAP are
                 caught on an alternate stack and reported as the outcome.
   miasm side  : Machine("x86_64"|"x86_32").jitter(loc_db, "python") - the jitcore_python path through sem.py - on the
@@ -15,7 +15,7 @@ and assembled with miasm's own assembler (first candidate), times a per-form lat
 values for every register portion / memory cell the lifted IR reads, all combinations of the flags it reads, shift
 counts around 0/1/width, REP counts 0..3, both directions.
 
-Oracle: all 16 GPRs and XMM registers, the scratch window (and "nothing written outside it"), the next pc, and the
+Oracle: all 16 GPRs, XMM and MMX registers, the scratch window (and "nothing written outside it"), the next pc, and the
 flags that the Intel SDM defines for the mnemonic (table UNDEFINED below; a flag the SDM leaves undefined is not
 compared, a flag the instruction does not touch must be preserved); a native #DE <=> a division exception in miasm.
 """
@@ -49,8 +49,10 @@ LEVEL_NOTE = ("Trusted: the host CPU (AMD EPYC), gcc, native/x86host.c, the SDM 
               "jitter on the full lattice; the GCC jitter (run in a forked child so that a crash of jitted code is an outcome, not a "
               "harness failure) on every fourth form with the quick lattice and on every floating point form. 32-bit mode: only mode-invariant encodings, executed natively in 64-bit mode "
               "from a state with zero upper halves (no DAA/DAS/AAA/AAS/AAM/AAD/PUSHA/POPA/INTO/BOUND/ARPL, no 0x40-0x4F INC/DEC, no 16-bit "
-              "addressing, no stack-width dependent forms). x87, MMX, privileged and control-flow instructions are outside the "
-              "alphabet. Scalar/packed floating point arithmetic cannot be evaluated by the Python backend (skipped and counted); it "
+              "addressing, no stack-width dependent forms). x87, privileged and control-flow instructions are outside the alphabet; MMX "
+              "registers are loaded and compared, but only the packed shift family (PSLL/PSRL/PSRA) has MMX forms in the alphabet. The "
+              "count lattice of a packed shift with a register/memory count (values around the element size, 2^k and 2^k+{1,3} up "
+              "to 2^63, 0x10000, 0x100000003, 2^64-1, garbage in the high quadword of a 128-bit count) is never lowered by the budget rule. Scalar/packed floating point arithmetic cannot be evaluated by the Python backend (skipped and counted); it "
               "is compared on the GCC backend in the thorough tier only.")
 TECHNIQUE = "bounded-exhaustive differential execution of single instructions against the host CPU"
 ASSUMPTIONS = ["the host CPU implements the architecture (flags the SDM leaves undefined are not compared)",
@@ -84,7 +86,7 @@ EXCEPT_UNK_MNEMO = (1 << 19)
 
 REQ_FMT = "<B15sQ16Q"
 RESP_HEAD = "<IIQQ16Q"
-RESP_SIZE = 4 + 4 + 8 + 8 + 128 + 256 + 256
+RESP_SIZE = 4 + 4 + 8 + 8 + 128 + 256 + 64 + 256
 SIGNAMES = {0: "ok", 4: "ill", 5: "trap", 7: "segv", 8: "div", 11: "segv"}
 
 # ------------------------------------------------------------------------------------------------------------------
@@ -113,6 +115,8 @@ def _mk_subreg():
         SUBREG[par + "B"] = (par, 0, 8)
     for i in range(16):
         SUBREG["XMM%d" % i] = ("XMM%d" % i, 0, 128)
+    for i in range(8):
+        SUBREG["MM%d" % i] = ("MM%d" % i, 0, 64)
 
 
 _mk_subreg()
@@ -261,6 +265,40 @@ def xmm_values(level, kind=None):
     return out
 
 
+def pcount_values(level, elt, w):
+    """Counts of a packed shift taken from a register / memory operand: the processor tests the whole low quadword against the
+    element size. Values below, at and above the element size, powers of two (alone and with low bits in range) up to 2^63,
+    all ones; a 128-bit operand carries garbage in its high quadword, which must be ignored."""
+    key = ("p", level, elt, w)
+    if key in _vals_cache:
+        return _vals_cache[key]
+    if level >= 3:
+        s = {0, 1, 2, 7, 8, 9, 15, 16, 17, 31, 32, 33, 63, 64, 65, 0xFF, 0xFFFF, 0x10000, 0x100000003, (1 << 64) - 1}
+        for k in (4, 5, 6, 7, 15, 16, 17, 31, 32, 33, 63):
+            s |= {1 << k, (1 << k) + 1, (1 << k) + 3}
+    else:
+        s = {0, 1, elt - 1, elt, 64, 0x10000, 0x100000003, (1 << 64) - 1}
+    out = sorted(s)
+    if w == 128:
+        hi = 0x0123456789ABCDEF << 64
+        out = [hi | c for c in out] + [3, 1 << 64]
+    _vals_cache[key] = out
+    return out
+
+
+def mm_values(level):
+    """64-bit MMX operand: the low halves of the XMM lattice (lane patterns for 8/16/32-bit elements) plus boundary values."""
+    key = ("mmv", level)
+    if key not in _vals_cache:
+        m = (1 << 64) - 1
+        out = []
+        for v in [x & m for x in xmm_values(level)] + (int_values(64, level) if level >= 3 else []):
+            if v not in out:
+                out.append(v)
+        _vals_cache[key] = out
+    return _vals_cache[key]
+
+
 def count_values(w, level):
     if level >= 3:
         s = {0, 1, 2, w - 1, w, w + 1, 7, 8, 9, 15, 16, 17, 18, 31, 32, 33, 63, 64, 65, 0x80, 0xFF}
@@ -311,6 +349,10 @@ def gpr_bg(mode):
         out.append(v if mode == 64 else v & 0xFFFFFFFF)
     out[GIDX["RSP"]] = P_MID + 0x20
     return out
+
+
+def mm_bg():
+    return [int.from_bytes(bytes(((i * 8 + j) * 11 + 0x93) & 0xFF for j in range(8)), "little") for i in range(8)]
 
 
 def xmm_bg():
@@ -479,6 +521,11 @@ def forms64():
         add("sseshift", "%s XMM1, XMMWORD PTR [RBX+0x10]" % op)
         for c in (0, 1, w - 1, w, 0xFF):
             add("sseshift", "%s XMM1, 0x%X" % (op, c))
+        # MMX forms of the same template (64-bit destination, count in an MMX register or a quadword in memory)
+        add("sseshift", "%s MM1, MM2" % op)
+        add("sseshift", "%s MM1, QWORD PTR [RBX+0x10]" % op)
+        for c in (1, w, 0xFF):
+            add("sseshift", "%s MM1, 0x%X" % (op, c))
     for op in ("PSLLDQ", "PSRLDQ"):
         for c in (0, 1, 8, 15, 16, 0xFF):
             add("sseshift", "%s XMM1, 0x%X" % (op, c))
@@ -535,7 +582,7 @@ def forms32():
         t32 = re.sub(r"\[[^\]]*\]", fix, t)
         if _ONLY64.search(re.sub(r"\[[^\]]*\]", "", t32)) or re.search(r"\bR\d+", t32):
             continue
-        if "QWORD" in t32 and g not in ("ssemov", "fp64", "fp32"):
+        if "QWORD" in t32 and g not in ("ssemov", "fp64", "fp32", "sseshift"):
             continue
         out.append((g, t32))
     return out
@@ -682,6 +729,8 @@ def _arg_class(a):
             return "r8h" if n in ("AH", "BH", "CH", "DH") else "r8"
         if n.startswith("XMM"):
             return "xmm"
+        if n.startswith("MM"):
+            return "mm"
         return "r%d" % a.size
     if a.is_mem():
         return "m%d" % a.size
@@ -795,7 +844,7 @@ def prepare(mode, group, text, code):
     for par, lo, hi in explicit:
         if par in acc["regs"] and par not in order:
             order.append(par)
-    for par in sorted(acc["regs"], key=lambda n: (n.startswith("XMM"), GIDX.get(n, 0), n)):
+    for par in sorted(acc["regs"], key=lambda n: (n.startswith("XMM") or n.startswith("MM"), GIDX.get(n, 0), n)):
         if par not in order:
             order.append(par)
     for par in order:
@@ -804,6 +853,8 @@ def prepare(mode, group, text, code):
         rngs = sorted(acc["regs"][par], key=lambda r: (-(r[1] - r[0]), r[0]))
         if par.startswith("XMM"):
             rngs = [(0, 128)]                 # lane-wise reads: one 128-bit slot
+        elif par.startswith("MM"):
+            rngs = [(0, 64)]
         chosen = []
         for lo, hi in rngs:
             if hi <= lo:
@@ -814,7 +865,8 @@ def prepare(mode, group, text, code):
                 continue
             chosen.append((lo, hi))
         for lo, hi in sorted(chosen):
-            slots.append({"k": "xmm" if par.startswith("XMM") else "reg", "reg": par, "lo": lo, "w": hi - lo, "vk": "int"})
+            slots.append({"k": "xmm" if par.startswith("XMM") else ("mm" if par.startswith("MM") else "reg"), "reg": par, "lo": lo,
+                          "w": hi - lo, "vk": "int"})
     # memory cells read
     cells = []
     for ptr, size in acc["mem"]:
@@ -849,9 +901,13 @@ def prepare(mode, group, text, code):
                 s["vk"] = "rep"
         opw = {"B": 8, "W": 16, "D": 32, "Q": 64}.get(name[-1], 0)
     if group == "sseshift" and len(args) == 2 and not args[1].is_int():
+        elt = {"W": 16, "D": 32, "Q": 64}[name[-1]]
         for s in slots:
-            if (s["k"] == "xmm" and s["reg"] == "XMM2") or (s["k"] == "mem" and s["w"] == 128):
-                s["vk"] = "count"
+            if (args[1].is_id() and s["k"] in ("xmm", "mm") and s["reg"] == args[1].name) or \
+                    (args[1].is_mem() and s["k"] == "mem" and s["w"] == args[1].size):
+                s["vk"] = "pcount"
+                s["elt"] = elt
+                s["fixed"] = True        # the budget rule never lowers the count lattice of a packed shift
     if group in ("fp64", "fp32"):
         for s in slots:
             if s["k"] == "xmm":
@@ -882,6 +938,8 @@ def slot_values(s, level):
         if s["k"] in ("xmm", "mem") and s["w"] == 128:
             return xmm_values(level, "count")
         return count_values(s.get("opw", 32), level)
+    if vk == "pcount":
+        return pcount_values(level, s["elt"], s["w"])
     if vk == "bitoff":
         return bitoff_values(s["w"], level)
     if vk == "rep":
@@ -894,6 +952,8 @@ def slot_values(s, level):
         return FLOATS if level >= 3 else FLOATS[:max(2, 3 * level)]
     if s["w"] == 128:
         return xmm_values(level)
+    if s["k"] == "mm":
+        return mm_values(level)
     return int_values(s["w"], level)
 
 
@@ -915,9 +975,10 @@ def lattice(form, tier):
             n *= len(slot_values(s, lv))
         return n
 
-    while size() > cap and any(lv > 0 for lv in levels):
-        top = max(levels)
-        idx = max(i for i, lv in enumerate(levels) if lv == top)
+    free = [i for i, s in enumerate(slots) if not s.get("fixed")]
+    while size() > cap and any(levels[i] > 0 for i in free):
+        top = max(levels[i] for i in free)
+        idx = max(i for i in free if levels[i] == top)
         levels[idx] -= 1
     vals = [slot_values(s, lv) for s, lv in zip(slots, levels)]
     fr = [f for f in form["flags_read"]]
@@ -935,6 +996,7 @@ def build_state(form, values, fl_read, rest_set, bgvar):
     mode = form["mode"]
     gpr = gpr_bg(mode)
     xmm = xmm_bg()
+    mmr = mm_bg()
     win = bytearray(window_bg(bgvar))
     for par, v in form["pins"].items():
         gpr[GIDX[par]] = v
@@ -947,6 +1009,10 @@ def build_state(form, values, fl_read, rest_set, bgvar):
             i = int(s["reg"][3:])
             mk = ((1 << s["w"]) - 1) << s["lo"]
             xmm[i] = (xmm[i] & ~mk) | ((v << s["lo"]) & mk)
+        elif s["k"] == "mm":
+            i = int(s["reg"][2:])
+            mk = ((1 << s["w"]) - 1) << s["lo"]
+            mmr[i] = (mmr[i] & ~mk) | ((v << s["lo"]) & mk)
         else:
             off = s["addr"] - WIN
             win[off:off + s["w"] // 8] = (v & ((1 << s["w"]) - 1)).to_bytes(s["w"] // 8, "little")
@@ -956,7 +1022,7 @@ def build_state(form, values, fl_read, rest_set, bgvar):
     flags = fl_read | ((STATUS & ~readmask) if rest_set else 0)
     if mode == 32:
         gpr = [g & 0xFFFFFFFF for g in gpr]
-    return {"gpr": gpr, "xmm": xmm, "flags": flags, "win": bytes(win)}
+    return {"gpr": gpr, "xmm": xmm, "mm": mmr, "flags": flags, "win": bytes(win)}
 
 
 def cases(form, tier):
@@ -988,6 +1054,7 @@ class Helper(object):
         for st in states:
             buf.append(struct.pack(REQ_FMT, len(code), c15, st["flags"], *st["gpr"]))
             buf.append(b"".join(x.to_bytes(16, "little") for x in st["xmm"]))
+            buf.append(struct.pack("<8Q", *st["mm"]))
             buf.append(st["win"])
         self.p.stdin.write(b"".join(buf))
         self.p.stdin.flush()
@@ -1003,7 +1070,8 @@ class Helper(object):
             out.append({"outcome": SIGNAMES.get(head[0], "sig%d" % head[0]), "dirty": head[1], "flags": head[3],
                         "gpr": list(head[4:20]),
                         "xmm": [int.from_bytes(b[xo + 16 * i:xo + 16 * i + 16], "little") for i in range(16)],
-                        "win": b[xo + 256:xo + 512]})
+                        "mm": list(struct.unpack_from("<8Q", b, xo + 256)),
+                        "win": b[xo + 320:xo + 576]})
         return out
 
     def close(self):
@@ -1065,6 +1133,8 @@ class Emu(object):
         regs = dict(zip(GPR, st["gpr"]))
         for i, v in enumerate(st["xmm"]):
             regs["XMM%d" % i] = v
+        for i, v in enumerate(st["mm"]):
+            regs["MM%d" % i] = v
         fl = st["flags"]
         for f, bit in FLAGBITS:
             regs[f] = 1 if fl & bit else 0
@@ -1118,6 +1188,7 @@ class Emu(object):
         g = cpu.get_gpreg()
         out["gpr"] = [g[n_] for n_ in GPR]
         out["xmm"] = [g["XMM%d" % i] for i in range(16)]
+        out["mm"] = [g["MM%d" % i] for i in range(8)]
         f = 0
         for fn, bit in FLAGBITS:
             if g[fn]:
@@ -1261,6 +1332,10 @@ def compare(form, st, nat, emu):
         if nat["xmm"][i] != emu["xmm"][i]:
             role = form["roles"].get("XMM%d" % i, "XMM%d" % i)
             diffs.append(("xmm:" + role, "XMM%d native %#034x miasm %#034x" % (i, nat["xmm"][i], emu["xmm"][i])))
+    for i in range(8):
+        if nat["mm"][i] != emu["mm"][i]:
+            role = form["roles"].get("MM%d" % i, "MM%d" % i)
+            diffs.append(("mm:" + role, "MM%d native %#018x miasm %#018x" % (i, nat["mm"][i], emu["mm"][i])))
     if nat["win"] != emu["win"]:
         k = next(i for i in range(WIN_LEN) if nat["win"][i] != emu["win"][i])
         diffs.append(("mem:window", "window+%#x.. native %s miasm %s" % (k, nat["win"][k:k + 16].hex(), emu["win"][k:k + 16].hex())))
@@ -1285,6 +1360,10 @@ def describe_state(form, st):
     for i in range(16):
         if st["xmm"][i] != xb[i]:
             parts.append("XMM%d=%#x" % (i, st["xmm"][i]))
+    mb = mm_bg()
+    for i in range(8):
+        if st["mm"][i] != mb[i]:
+            parts.append("MM%d=%#x" % (i, st["mm"][i]))
     parts.append("flags=%#x" % st["flags"])
     for s in form["slots"]:
         if s["k"] == "mem":
@@ -1295,7 +1374,8 @@ def describe_state(form, st):
 
 def case_record(form, backend, st):
     return {"mode": form["mode"], "backend": backend, "group": form["group"], "asm": form["text"], "code": form["code"].hex(),
-            "gpr": ["%x" % g for g in st["gpr"]], "xmm": ["%x" % x for x in st["xmm"]], "flags": st["flags"], "win": st["win"].hex()}
+            "gpr": ["%x" % g for g in st["gpr"]], "xmm": ["%x" % x for x in st["xmm"]], "mm": ["%x" % x for x in st["mm"]], "flags": st["flags"],
+            "win": st["win"].hex()}
 
 
 def judge(form, backend, st, nat, emu, tally):
@@ -1421,11 +1501,11 @@ def run_form(form, backends, tier, tally, sigs):
                 oc = n_["outcome"]
                 tally.setdefault("native_outcomes", {})
                 tally["native_outcomes"][oc] = tally["native_outcomes"].get(oc, 0) + 1
-                if oc != "ok" or n_["gpr"] != st["gpr"] or n_["xmm"] != st["xmm"] or n_["win"] != st["win"] or \
+                if oc != "ok" or n_["gpr"] != st["gpr"] or n_["xmm"] != st["xmm"] or n_["mm"] != st["mm"] or n_["win"] != st["win"] or \
                         (n_["flags"] ^ st["flags"]) & (STATUS | DF):
                     tally["nontrivial"] = tally.get("nontrivial", 0) + 1
             tally["distinct_native_results"] = tally.get("distinct_native_results", 0) + len(
-                {(n_["outcome"], n_["flags"], n_["gpr"][0], n_["gpr"][2], n_["xmm"][1], n_["win"][0x80:0x90]) for n_ in nat})
+                {(n_["outcome"], n_["flags"], n_["gpr"][0], n_["gpr"][2], n_["xmm"][1], n_["mm"][1], n_["win"][0x80:0x90]) for n_ in nat})
         sts, nat = natives[lt]
         if backend == "gcc":
             emu_results = emu_isolated(form["mode"], backend, form["code"], sts)
@@ -1654,7 +1734,7 @@ def replay(case):
         return []
     form = prepare(mode, case["group"], case["asm"], code)
     st = {"gpr": [int(x, 16) for x in case["gpr"]], "xmm": [int(x, 16) for x in case["xmm"]], "flags": case["flags"],
-          "win": bytes.fromhex(case["win"])}
+          "mm": [int(x, 16) for x in case["mm"]] if case.get("mm") else mm_bg(), "win": bytes.fromhex(case["win"])}
     outdir = tempfile.mkdtemp(prefix="c18_", dir=native.tmpdir())
     try:
         _CFG["exe"] = build_helper(outdir)
